@@ -250,10 +250,62 @@ func runC13(w *World, r *Report) {
 			r.Fail("R4", "insert/param-name-conflict-rejected", iw.Pos(), "no error return on a path-parameter name mismatch: two declarations with different names at one position would share a node and report a URL that was never declared")
 		}
 	}
-	r.Min("R1", 4)
+	checkDeclaredTreesDoNotConverge(w, r, "R1")
+	r.Min("R1", 8)
 	r.Min("R2", 7)
 	r.Min("R3", 8)
 	r.Min("R4", 3)
 }
 
 func sortStrings(s []string) { sort.Strings(s) }
+
+// checkDeclaredTreesDoNotConverge: the engine's URL trees hold declared
+// patterns; sibling convergence into an assumed path parameter (the discovery
+// tree's behaviour) is never enabled for them. Decided by (a) who writes the
+// enabling field and (b) the constant passed at every constructor call site of
+// the loaded engine module.
+func checkDeclaredTreesDoNotConverge(w *World, r *Report, rule string) {
+	var writers []string
+	for _, f := range w.lunarFns {
+		if f.Origin() != nil {
+			continue
+		}
+		Instrs(f, func(in ssa.Instruction) {
+			st, ok := in.(*ssa.Store)
+			if !ok {
+				return
+			}
+			if fa, ok := st.Addr.(*ssa.FieldAddr); ok && fieldName(fa.X.Type(), fa.Field) == "assumedPathParamsEnabled" {
+				if p, n := namedOf(fa.X.Type()); p == pkgURLTree && n == "URLTree" {
+					id := shortFn(fnID(outermost(f)))
+					if b, isC := constBool(st.Val); !(isC && !b) && id != "urltree.NewURLTree" {
+						writers = append(writers, id+" at "+w.Pos(st.Pos()))
+					}
+				}
+			}
+		})
+	}
+	r.Check(len(writers) == 0, rule, "convergence-flag/only-the-constructor-sets-it", token.NoPos, "URLTree.assumedPathParamsEnabled is set only by NewURLTree from its argument (other writers: %v)", writers)
+	n := 0
+	for _, cs := range w.CallSites("urltree.NewURLTree") {
+		n++
+		b, isC := constBool(cs.In.Common().Args[0])
+		r.Check(isC && !b, rule, "convergence-flag/"+shortFn(fnID(outermost(cs.Fn))), posOf(cs.In), "NewURLTree(assumedPathParamsEnabled=%s, ...) (want the constant false: declared patterns must stay distinct)", Path(cs.In.Common().Args[0]))
+	}
+	if n < 2 {
+		r.Undec(rule, "convergence-flag/call-sites", token.NoPos, "expected at least two NewURLTree call sites in the engine, found %d", n)
+	}
+	if ne := w.Fn(pkgURLTree, "NewEndpointTree"); ne == nil {
+		r.Undec(rule, "NewEndpointTree", token.NoPos, "function not found")
+	} else {
+		calls := CallsIn(ne, true, "urltree.NewURLTree")
+		r.Check(len(calls) == 0 || func() bool {
+			for _, c := range calls {
+				if b, isC := constBool(c.Common().Args[0]); !isC || b {
+					return false
+				}
+			}
+			return true
+		}(), rule, "convergence-flag/NewEndpointTree", ne.Pos(), "the endpoint (policy) tree is constructed without sibling convergence")
+	}
+}
